@@ -82,19 +82,111 @@ class Monitor:
         self.edits = 0
         self.saves = 0
 
+    @staticmethod
+    def assignments(text, k):
+        """{name: (value, marked_default)} of a config text - last assignment wins, the deprecated block is skipped,
+        only names the tree defines are kept."""
+        out = {}
+        in_dep = False
+        marked = False
+        for ln in text.splitlines():
+            s = ln.strip()
+            if s.startswith("# Deprecated options for backward compatibility"):
+                in_dep = True
+            elif s.startswith("# End of deprecated options"):
+                in_dep = False
+            if in_dep:
+                continue
+            if s == "# default:":
+                marked = True
+                continue
+            name = val = None
+            if s.startswith("CONFIG_") and "=" in s:
+                name, val = s[len("CONFIG_"):].split("=", 1)
+            elif s.startswith("# CONFIG_") and s.endswith(" is not set"):
+                name, val = s[len("# CONFIG_"):-len(" is not set")], "n"
+            dep = k.deprecated_options
+            if name is not None and dep is not None and dep.get_new_option(name) is not None:
+                # an alias assigns its replacement (n/y swapped for `!` renames)
+                if dep.is_inversion(name):
+                    val = {"y": "n", "n": "y"}.get(val, val)
+                name = dep.get_new_option(name)
+            if name is not None and name in k.syms and k.syms[name].nodes and Monitor.well_formed(k.syms[name], val):
+                out.pop(name, None)  # keep the position of the last assignment (dicts are insertion-ordered)
+                out[name] = (val, marked)
+            marked = False
+        return out
+
+    def value_conflict(self, k, disk_text, mem_text):
+        """A sharper class than the file's origin: the recorded byte-vs-value findings are about files whose *assignments agree*
+        with the evaluated configuration (only layout, omitted or extra lines differ).  An option that both the disk and the
+        would-be save mention with different values - or a user (unmarked) value the disk does not hold at all - is an edit
+        that quitting would lose, whatever the origin of the file."""
+        da, ma = self.assignments(disk_text, k), self.assignments(mem_text, k)
+        for name, (mv, mmark) in ma.items():
+            if name in da and k.syms[name].choice is None:
+                dv = da[name][0]
+                if dv != mv and not self.same_value(k.syms[name], dv, mv):
+                    return "/value-differs"
+        # members of a choice are not independent assignments (the last y wins): compare the selections
+        for ch in k.unique_choices:
+            names = [s.name for s in ch.syms]
+            dy = [n for n in da if n in names and da[n][0] == "y"]
+            my = [n for n in ma if n in names and ma[n][0] == "y"]
+            if dy and my and dy[-1] != my[-1]:
+                return "/value-differs"
+        return ""
+
+    @staticmethod
+    def well_formed(sym, v):
+        """An assignment the loader can apply at all (ill-formed right-hand sides are ignored with a warning)."""
+        t = sym.orig_type
+        try:
+            if t == core.BOOL:
+                return v in ("y", "n")
+            if t == core.INT:
+                int(v, 10)
+            elif t == core.HEX:
+                return int(v, 16) >= 0
+            elif t == core.FLOAT:
+                return float(v) == float(v) and abs(float(v)) != float("inf")
+            elif t == core.STRING:
+                return len(v) >= 2 and v[0] == '"' and v[-1] == '"'
+        except (ValueError, TypeError):
+            return False
+        return True
+
+    @staticmethod
+    def same_value(sym, a, b):
+        """Equal up to the spelling a hand-written file may use (hex case/prefix, int sign/zeros, float form, bool =n)."""
+        t = sym.orig_type
+        try:
+            if t == core.INT:
+                return int(a, 10) == int(b, 10)
+            if t == core.HEX:
+                return int(a, 16) == int(b, 16)
+            if t == core.FLOAT:
+                return float(a) == float(b)
+        except (ValueError, TypeError):
+            return False
+        if t == core.BOOL:
+            return (a or "n") == (b or "n")
+        return False
+
     def mechanism(self, sess, disk_text, mem_text):
         k = sess.state.kconf
         if disk_text is None:
             return "file-missing"
+        conflict = self.value_conflict(k, disk_text, mem_text)
         if not self.m.disk_tool_written:
             if k.missing_syms:
                 return "hand-edited-file-on-disk/unknown-symbols-ignored"
-            return "hand-edited-file-on-disk"
+            return "hand-edited-file-on-disk" + conflict
         if self.m.disk_origin == "tool-old":
-            return "file-of-older-tree-on-disk"
+            return "file-of-older-tree-on-disk" + conflict
         dl, ml = disk_text.splitlines(), mem_text.splitlines()
         if "# Deprecated options for backward compatibility" in disk_text:
-            return "deprecated-block-on-disk"
+            return "deprecated-block-on-disk" + conflict
         if [x for x in dl if x.strip() != "# default:"] == [x for x in ml if x.strip() != "# default:"]:
             return "marker-only"
         if ops.injected(k):
